@@ -2,13 +2,6 @@ From Coq Require Import String Ascii List Bool Arith ZArith.
 Require Import PyStr PyInt Sexp Xml M_C09 M_C08 R_C08 Ns Table M_Parse.
 Import ListNotations.
 
-Definition d_attrs : sexp -> option (list (str * str)) := d_list (d_pair d_str d_str).
-Fixpoint d_nxml (x : sexp) : option nxml :=
-  match x with
-  | Lst [ns; l; a; t; Lst ch] =>
-      obind (d_str ns) (fun ns => obind (d_str l) (fun l => obind (d_attrs a) (fun a => obind (d_ostr t) (fun t =>
-      omap (NElem ns l a t) (sequence (map d_nxml ch))))))
-  | _ => None end.
 Definition d_ref_elem (x : sexp) : option ref_elem :=
   match x with Lst [a; t] => obind (d_attrs a) (fun a => omap (fun t => {| re_attrs := a; re_text := t |}) (d_ostr t)) | _ => None end.
 Definition d_node_elem (x : sexp) : option node_elem :=
